@@ -117,7 +117,7 @@ func (f *Filler) fillField(owner string, sf reflect.StructField, fv reflect.Valu
 		case owner == "BasicLit" && sf.Name == "Value":
 			fv.SetString("1")
 		case owner == "Ident" && sf.Name == "Path":
-			// Path left empty: import management is the business of C07
+			fv.SetString("ex.com/filled/pkg") // filled trees are never printed with a plain restorer
 		default:
 			fv.SetString(f.id())
 		}
